@@ -279,6 +279,18 @@ def check_positions_not_by_equality(ctx):
     for key in (f"{MS}:Measurements.get_expectation_values", f"{PA}:get_parities_from_measurements"):
         fi = repo.func(key)
         hits = [c for c in body_walk(fi.node) if isinstance(c, ast.Call) and isinstance(c.func, ast.Attribute) and c.func.attr == "index" and len(c.args) == 1 and "term" in norm(c.func.value).lower()]
+        # ... nor are two terms "the same term" because `==` says so: term equality is tolerant (any two terms whose coefficients are
+        # both ~0 compare equal whatever they act on, and repeated terms are equal by design); the same *position* is `i == j`
+        tvars = set()
+        for loop in body_walk(fi.node):
+            if isinstance(loop, ast.For) and ".terms" in norm(loop.iter):
+                tgt = loop.target.elts[-1] if isinstance(loop.target, ast.Tuple) else loop.target
+                if isinstance(tgt, ast.Name):
+                    tvars.add(tgt.id)
+            if isinstance(loop, ast.Assign) and isinstance(loop.value, ast.Subscript) and norm(loop.value.value).endswith(".terms") and isinstance(loop.targets[0], ast.Name):
+                tvars.add(loop.targets[0].id)
+        cmp_hits = [c for c in body_walk(fi.node) if isinstance(c, ast.Compare) and len(c.ops) == 1 and isinstance(c.ops[0], (ast.Eq, ast.NotEq)) and isinstance(c.left, ast.Name) and isinstance(c.comparators[0], ast.Name) and {c.left.id, c.comparators[0].id} <= tvars and c.left.id != c.comparators[0].id]
+        ctx.check(not cmp_hits, R1, fi.key + ":same-term-by-equality", "two loop positions are told apart by their indices, not by comparing the terms", f"`{short(cmp_hits[0]) if cmp_hits else ''}` decides that two positions hold the same term with the tolerant term equality: two different terms with (near-)zero coefficients compare equal whatever qubits they act on, so their pair entry gets the value meant for a term paired with itself", f"{fi.module.relpath}:{cmp_hits[0].lineno}" if cmp_hits else fi)
         ctx.check(not hits, R1, fi.key + ":positions", "term positions come from enumeration, not from equality lookups", f"`{short(hits[0]) if hits else ''}` looks a term's position up by equality: for an operator with a repeated term (Z0 + Z1 + Z0) the later copy resolves to the first one's position, so its correlations / covariances stay unset", f"{fi.module.relpath}:{hits[0].lineno}" if hits else fi)
 
 
@@ -485,7 +497,57 @@ def check_purity(ctx):
     ctx.externals |= eff.externals_seen
 
 
+R8 = "C10-D8 ising-classifier"
+
+
+def check_ising_classifier(ctx):
+    """Which operators the statistics accept: a term is Z-type when every factor it has is Z -- a constant term has no factor and
+    qualifies --, a sum when all of its terms are. Writing the test as `set(factors) == {"Z"}` instead of "subset of" rejects
+    constants, constant-only sums and the empty sum, for which the property promises "exactly its coefficient"."""
+    repo = ctx.repo
+    for cname in ("PauliTerm", "PauliSum"):
+        f = repo.func(f"operators._pauli_operators:{cname}.is_ising")
+        ctx.analysed(f)
+        d = Defs(f.node)
+        cands = [r for r in returned_exprs(f.node)]
+        vals = []
+        for r in cands:
+            if isinstance(r, ast.Attribute) and isinstance(r.value, ast.Name) and r.value.id == "self":
+                vals += [st.value for st in body_walk(f.node) if isinstance(st, ast.Assign) and norm(st.targets[0]) == norm(r)]
+            elif isinstance(r, ast.Name):
+                vals += [v for v in d.defs.get(r.id, []) if isinstance(v, ast.AST)]
+            else:
+                vals.append(r)
+        if not vals:
+            ctx.undecided(R8, f.key, "cannot find the value is_ising computes", f)
+            continue
+        for v in vals:
+            where = f"{f.module.relpath}:{v.lineno}"
+            arms = v.values if isinstance(v, ast.BoolOp) and isinstance(v.op, ast.Or) else [v]
+            has_const_arm = any(norm(a) in ("self.is_constant", "not self._ops", "len(self._ops) == 0") for a in arms)
+            eq_sets = [a for a in arms if isinstance(a, ast.Compare) and len(a.ops) == 1 and isinstance(a.ops[0], ast.Eq) and any(isinstance(x, ast.Set) and [norm(e) for e in x.elts] == ["'Z'"] for x in (a.left, a.comparators[0]))]
+            sub_sets = [a for a in arms if (isinstance(a, ast.Compare) and len(a.ops) == 1 and isinstance(a.ops[0], ast.LtE) and isinstance(a.comparators[0], ast.Set)) or (isinstance(a, ast.Call) and isinstance(a.func, ast.Attribute) and a.func.attr == "issubset")]
+            alls = [a for a in arms if isinstance(a, ast.Call) and dotted(a.func) == "all" and a.args]
+            if eq_sets and not has_const_arm:
+                ctx.violation(R8, f.key, f"{cname}.is_ising is `{short(v, 90)}`: a set *equality* with {{'Z'}} is false for an operator without any non-identity factor, so constant terms / constant-only sums / the empty sum are refused (TypeError) by the expectation-value and parity routines instead of contributing exactly their coefficient", where)
+            elif eq_sets or sub_sets:
+                ctx.ok(R8, f.key, "every factor is Z (constants qualify)", where)
+            elif alls and cname == "PauliSum":
+                g = alls[0].args[0]
+                okg = isinstance(g, (ast.ListComp, ast.GeneratorExp)) and len(g.generators) == 1 and norm(g.generators[0].iter) in ("self.terms", "self") and not g.generators[0].ifs and norm(g.elt) == f"{norm(g.generators[0].target)}.is_ising"
+                ctx.check(okg, R8, f.key, "a sum is Z-type iff all of its terms are", f"PauliSum.is_ising is {short(v, 90)}: not `all(term.is_ising for term in self.terms)`", where)
+            elif alls:
+                ctx.ok(R8, f.key, "all(...) over the term's factors", where)
+            else:
+                ctx.undecided(R8, f.key, f"unrecognised Z-type test {short(v, 90)}", where)
+
+
 def run(ctx):
+    from . import c03 as _c03
+
+    _c03.check_is_constant(ctx, "C10-D8 ising-classifier")
+    check_ising_classifier(ctx)
+    ctx.floor("C10-D8", 2)
     from ..lints import check_caches
 
     check_caches(ctx, "C10-D7 caches", ['measurements.measurements', 'measurements.parities', 'measurements.expectation_values', 'utils'])
